@@ -296,6 +296,9 @@ func (s *Server) handlePostImport(w http.ResponseWriter, r *http.Request) {
 	if name == "" {
 		Error(w, r, fmt.Errorf("name required"), http.StatusBadRequest)
 		return
+	} else if !validDatabaseName(name) {
+		Error(w, r, fmt.Errorf("invalid database name: %q", name), http.StatusBadRequest)
+		return
 	}
 
 	// Wrap context so that it cancels when the primary lease is lost.
